@@ -12,7 +12,8 @@ VARIABLES l, bad
 
 FillClauses(r) ==
     << <<"outcome-independent-of-prior-heap-content", \A k \in 1..Len(r.d) : r.d[k] = r.d[1]>>,
-       <<"same-outcome-class", \A k \in 1..Len(r.cls) : r.cls[k] = r.cls[1]>> >>
+       <<"same-outcome-class", \A k \in 1..Len(r.cls) : r.cls[k] = r.cls[1]>>,
+       <<"second-call-on-the-object=fresh-object", Has(r, "reuse") => r.reuse>> >>
 DegenClauses(r) ==
     << <<"failure-is-exception-or-reported", r.cls \in 0..3>>,
        <<"reported-convergence-is-truthful", r.cls = 0 => r.tru <= -7000>> >>
